@@ -724,7 +724,7 @@ func (e *Engine) execSelect(st *State, f *Frame, ins *ssa.Select) {
 		if ch.obj == 0 {
 			continue
 		}
-		if o := e.obj(st, ch.obj); o.isTimer && o.timerActive {
+		if o := e.obj(st, ch.obj); o.isTimer && o.timerActive && !o.hasAfter {
 			st.clock += e.fireTimer(st, ch.obj)
 			now := AggVal{[]Value{e.ctx.BV(64, 1<<63), e.ctx.BV(64, uint64(st.clock)), PtrVal{}}}
 			e.set(f, ins, mk(i, true, myri, now))
@@ -732,7 +732,48 @@ func (e *Engine) execSelect(st *State, f *Frame, ins *ssa.Select) {
 			return
 		}
 	}
+	if e.fireAfterFunc(st, ins) {
+		return
+	}
 	e.unsupported(st, "blocking select")
+}
+
+// fireAfterFunc is what happens at a blocked receive/select once no parked goroutine is left
+// and no timer channel of the wait itself is armed, under the "@afterfunc": "fire" policy:
+// the armed time.AfterFunc timer with the earliest deadline fires (the modelled clock jumps to
+// its deadline, its callback runs, the blocked instruction is executed again); when no such
+// timer is left and the blocked code is a lazily scheduled goroutine, that goroutine stays
+// blocked for good: its frames are dropped (its deferred calls do not run) and the instruction
+// at which its spawner was blocked is executed again.
+func (e *Engine) fireAfterFunc(st *State, at ssa.Instruction) bool {
+	if e.cfg.GoPolicy["@afterfunc"] != "fire" {
+		return false
+	}
+	best := -1
+	for _, id := range st.afterTimers {
+		o := e.obj(st, id)
+		if o.hasAfter && o.timerActive && (best < 0 || o.timerAt < e.obj(st, best).timerAt) {
+			best = id
+		}
+	}
+	if best >= 0 {
+		wo := e.wobj(st, best)
+		wo.timerActive = false
+		if wo.timerAt > st.clock {
+			st.clock = wo.timerAt
+		}
+		st.notes = append(st.notes, fmt.Sprintf("AfterFunc timer fires at %d ms", st.clock/1000000))
+		e.callValue(st, wo.afterFn, nil, retRerun, at)
+		return true
+	}
+	if n := len(st.lazyBase); n > 0 {
+		base := st.lazyBase[n-1]
+		st.lazyBase = st.lazyBase[:n-1]
+		st.frames = st.frames[:base]
+		st.notes = append(st.notes, "a lazily scheduled goroutine stays blocked for good")
+		return true
+	}
+	return false
 }
 
 // fireTimer fires the armed timer/ticker channel obj and returns the time that passes (ns): a
@@ -1074,6 +1115,7 @@ func (e *Engine) runLazyGo(st *State, at ssa.Instruction) bool {
 	}
 	d := st.goDeferred[0]
 	st.goDeferred = append([]deferRec(nil), st.goDeferred[1:]...)
+	st.lazyBase = append(append([]int(nil), st.lazyBase...), len(st.frames))
 	e.callValue(st, d.fn, d.args, retRerun, at)
 	return true
 }
